@@ -208,7 +208,10 @@ class RemoteProxy(BaseProxy):
         except ConnectionError:
             # The connection is already broken.
             pass
-        await self._reader_task
+        if asyncio.current_task() is not self._reader_task:
+            # (_handle_remote_requests calls stop() itself when it fails;
+            # a task cannot wait for itself.)
+            await self._reader_task
 
 
 def extract_version(meta: Meta) -> List[int]:
